@@ -436,6 +436,9 @@ class Ev:
         if l in self.overrides:
             return self.overrides[l]
         if fn.is_object(l) and not (1 <= l <= fn.nargs and l in self.binds):
+            ap = self.access_paths().get(l)
+            if ap is not None and ap[0] != l and ap[1] == () and fn.is_object(ap[0]) and not (1 <= ap[0] <= fn.nargs):
+                return ("obj", fn.path, ap[0])      # moved-in object: one identity
             return ("obj", fn.path, l)
         defs, entry = self.reaching(l, at)
         terms = []
@@ -693,6 +696,10 @@ class Ev:
         return out
 
     # ------------------------------------------------------------ access paths of reference-holding locals
+    def _only_live_def(self, l, b):
+        ds = [d for d in self.fn.defs().get(l, []) if d[2] == "whole" and (self._live is None or d[0] in self._live)]
+        return len(ds) == 1 and ds[0][0] == b
+
     def access_paths(self):
         """local -> (root_local, (field names...)) for locals that hold a reference to (part of) another local or to
         (part of) the pointee of a parameter.  Derefs are dropped."""
@@ -726,6 +733,10 @@ class Ev:
                     base = paths.get(src["l"])
                     if base is None:
                         if rv["k"] in ("ref", "rawptr"):
+                            base = (src["l"], ())
+                        elif rv["k"] == "use" and rv["op"].get("mv") is not None and not src.get("p") and fn.is_object(src["l"]) and \
+                                not (1 <= src["l"] <= fn.nargs) and self._only_live_def(st["dst"]["l"], bl.idx):
+                            # `outer = move inner` as the only (live) initialisation of outer: the same object under a new name
                             base = (src["l"], ())
                         else:
                             continue
